@@ -18,6 +18,7 @@ def check(ctx, rep):
     K.rule_send_metric(fm, rep)
     K.rule_error_type(fm, rep)
     K.rule_quiet_send(fm, rep)
+    K.rule_handler_config(fm, rep, 'R4c')
     K.rule_rejection(fm, rep)
     K.rule_plain_forms(fm, rep)
     K.rule_client_immutable(fm, rep)
